@@ -138,6 +138,25 @@ def run(ctx):
                 heq = False
             traces.append({"kind": "pair", "s": s1, "s2": s2, "eq": bool(a == b), "same": bool(same), "hash_eq": heq})
             npairs += 1
+    # the same tags written in another order are the same uri: longer tag lists, whose sets are laid out differently in memory
+    # depending on the order in which the tags went in
+    pool = ["a", "b", "c", "d", "e", "f", "g", "h", "k1", "k2", "k3", "x.y", "tag-9", "T", "zz", "q"]
+    for n in range(ctx.pick(60, 400)):
+        tags = rng.sample(pool, rng.randint(4, 9))
+        others = [sorted(tags), sorted(tags, reverse=True), rng.sample(tags, len(tags))]
+        s1 = "PYROMETA:" + ",".join(tags)
+        for o in others:
+            s2 = "PYROMETA:" + ",".join(o)
+            try:
+                a, b = core.URI(s1), core.URI(s2)
+            except Exception:
+                continue
+            try:
+                heq = hash(a) == hash(b)
+            except TypeError:
+                heq = False
+            traces.append({"kind": "pair", "s": s1, "s2": s2, "eq": bool(a == b), "same": a.object == b.object, "hash_eq": heq})
+            npairs += 1
     ctx.evaluations += npairs
     for i in (5, len(cases), len(traces) - 1):
         ctx.sample(traces[i])
